@@ -932,8 +932,20 @@ Lemma track_op_tv m o ob : match o with Issue _ _ => False | _ => True end ->
   /\ m_i (track_op cfg m o ob) = m_i m /\ (forall c, shr (track_op cfg m o ob) c = shr m c).
 Proof.
   intros Ho. destruct o; try contradiction; cbn [track_op]; try (repeat split; reflexivity).
-  - destruct (nth_error (m_reqs m) r) as [x|]; [|repeat split; reflexivity]. destruct (ri_stat x); try (repeat split; reflexivity).
-    all: repeat split; try reflexivity; intros r0; apply lp_ri_upd_keep; intros y; destruct (ri_stat y), (ri_dial y); reflexivity.
+  - destruct (nth_error (m_reqs m) r) as [x|]; [|repeat split; reflexivity].
+    set (f := fun y => set_ri_pend false (set_ri_stat SCancelled
+         (match ri_stat y, ri_dial y with SLive, DsFlying => set_ri_aband true y | _, _ => y end))).
+    assert (Hpre : forall mi, (forall c, off mi c = off m c) -> (forall r0, lp mi r0 = lp m r0) -> m_i mi = m_i m -> (forall c, shr mi c = shr m c) ->
+              (forall c, off (ri_upd f r mi) c = off m c) /\ (forall r0, lp (ri_upd f r mi) r0 = lp m r0)
+              /\ m_i (ri_upd f r mi) = m_i m /\ (forall c, shr (ri_upd f r mi) c = shr m c)).
+    { intros mi E1 E2 E3 E4. repeat split; auto. intros r0. rewrite <- E2. apply lp_ri_upd_keep. intros y. unfold f. destruct (ri_stat y), (ri_dial y); reflexivity. }
+    assert (Hself : (forall c, off m c = off m c) /\ (forall r0, lp m r0 = lp m r0) /\ m_i m = m_i m /\ (forall c, shr m c = shr m c)) by (repeat split).
+    destruct Hself as (S1 & S2 & S3 & S4).
+    destruct (ri_stat x); try (repeat split; reflexivity); [|apply Hpre; auto].
+    destruct (ri_popx x) as [c|]; [|apply Hpre; auto]. destruct (nth_error (m_conns m) c) as [y|]; [|apply Hpre; auto].
+    destruct (ci_share y); [apply Hpre; auto|]. apply Hpre; try reflexivity.
+    + intros c0. apply off_ci_upd_keep. reflexivity.
+    + intros c0. apply shr_ci_upd. reflexivity.
   - destruct (holder_conn m r); [|repeat split; reflexivity]. repeat split; try reflexivity.
     + intros c0. apply off_ci_upd_keep. reflexivity.
     + intros c0. apply shr_ci_upd. reflexivity.
